@@ -43,6 +43,8 @@ var QueryGroups = []struct{ Name, Query string }{
 	{"Q nested", `(name = "Bob" OR language = fra) AND tel != ""`},
 	// a calendar-day comparison: its answer depends on the timezone in force
 	{"Q createdday", `created_on = 2020-01-01`},
+	// strictly after a day: true from the first instant of the next day on
+	{"Q createdafter", `created_on > 2020-01-01`},
 }
 
 func QGroupUUID(i int) string { return world.UUID(fmt.Sprintf("qgroup-%d", i)) }
@@ -75,6 +77,9 @@ const (
 	URNStaleChannel = "tel:+12065551212?channel=0a6bd5b3-0a7c-4d0c-9c0c-7a6c0c0c0c0c"
 )
 
+// URNTwitterAff already has an affinity to the twitter channel: setting that channel only reorders.
+var URNTwitterAff = "twitterid:123?channel=" + world.ChanTwitter + "#ann"
+
 // URNExtraParams has the channel parameter preceded by another parameter (not in the order the library writes them).
 var URNExtraParams = "tel:+12065551212?id=123&channel=" + world.ChanTel
 
@@ -84,7 +89,7 @@ func Contacts(full bool) []J {
 	names := []string{"", "Ann", "Annabelle"}
 	langs := []string{"", "eng", "fra"}
 	statuses := []string{"active", "blocked", "stopped", "archived"}
-	urnLists := [][]any{{}, {URNTel}, {URNTel, URNTwitter}, {URNTwitter2, URNTel2}, {URNTel + "?channel=" + world.ChanTel, URNTwitter2}, {URNStaleChannel, URNTwitter}, {URNExtraParams}}
+	urnLists := [][]any{{}, {URNTel}, {URNTel, URNTwitter}, {URNTwitter2, URNTel2}, {URNTel + "?channel=" + world.ChanTel, URNTwitter2}, {URNStaleChannel, URNTwitter}, {URNExtraParams}, {URNTel + "?channel=" + world.ChanTel, URNTwitterAff}}
 	groupSets := [][]any{{}, {J{"uuid": world.GroupA, "name": "Group A"}}, {J{"uuid": world.GroupA, "name": "Group A"}, J{"uuid": world.GroupB, "name": "Group B"}}}
 	wrongQ := []int{-1, 2, 9} // stored membership of a query group that may be wrong (-1 = none)
 	fieldSets := []J{{}, {"gender": J{"text": "F"}}, {"gender": J{"text": "F"}, "age": J{"text": "30", "number": 30}, "state": J{"text": "Kigali", "state": "Rwanda > Kigali City"}}}
@@ -92,7 +97,7 @@ func Contacts(full bool) []J {
 	if !full {
 		names = []string{"", "Ann"}
 		langs = []string{"", "eng"}
-		urnLists = [][]any{{}, {URNTel, URNTwitter}, {URNTel + "?channel=" + world.ChanTel, URNTwitter2}, {URNStaleChannel, URNTwitter}, {URNExtraParams}}
+		urnLists = [][]any{{}, {URNTel, URNTwitter}, {URNTel + "?channel=" + world.ChanTel, URNTwitter2}, {URNStaleChannel, URNTwitter}, {URNExtraParams}, {URNTel + "?channel=" + world.ChanTel, URNTwitterAff}}
 		wrongQ = []int{-1, 9}
 	}
 	var out []J
